@@ -128,13 +128,45 @@ fn run_inputs(ctx: &mut Ctx, name: &str, inputs: &[Vec<u8>]) {
 
 fn ser<T: serde::Serialize>(v: &T) -> Vec<u8> { let mut b = vec![]; ciborium::ser::into_writer(v, &mut b).unwrap(); b }
 
+/// a string or byte-string member given another length (the encoding stays well-formed: what a decoder with a
+/// fixed-size field behind it must refuse, not index into)
+fn resize_cbor(v: &mut ciborium::value::Value, target: &mut i64, newlen: usize) -> bool {
+    use ciborium::value::Value as V;
+    match v {
+        V::Bytes(b) => { if *target == 0 { b.resize(newlen, 0x5a); *target -= 1; return true; } *target -= 1; false }
+        V::Text(t) => { if *target == 0 { let mut c: Vec<char> = t.chars().collect(); c.resize(newlen, 'a'); *t = c.into_iter().collect(); *target -= 1; return true; } *target -= 1; false }
+        V::Array(xs) => { for x in xs.iter_mut() { if resize_cbor(x, target, newlen) { return true; } } false }
+        V::Map(kvs) => { for (k, x) in kvs.iter_mut() { if resize_cbor(k, target, newlen) || resize_cbor(x, target, newlen) { return true; } } false }
+        V::Tag(_, x) => resize_cbor(x, target, newlen),
+        _ => false,
+    }
+}
+fn resize_json(v: &mut serde_json::Value, target: &mut i64, newlen: usize) -> bool {
+    use serde_json::Value as V;
+    match v {
+        V::String(t) => { if *target == 0 { let mut c: Vec<char> = t.chars().collect(); c.resize(newlen, 'A'); *t = c.into_iter().collect(); *target -= 1; return true; } *target -= 1; false }
+        V::Array(xs) => { for x in xs.iter_mut() { if resize_json(x, target, newlen) { return true; } } false }
+        V::Object(m) => { for (_, x) in m.iter_mut() { if resize_json(x, target, newlen) { return true; } } false }
+        _ => false,
+    }
+}
+fn resized(ctx: &mut Ctx, base: &[u8], text: bool) -> Vec<u8> {
+    let newlen = *ctx.rng.pick(&[0usize, 1, 2, 3, 15, 16, 17, 31, 32, 33, 63, 64, 65, 66]);
+    let mut target = ctx.rng.below(12) as i64;
+    if text {
+        match serde_json::from_slice::<serde_json::Value>(base) { Ok(mut v) => { let mut t0 = target; if !resize_json(&mut v, &mut t0, newlen) { target = 0; let _ = resize_json(&mut v, &mut target, newlen); } serde_json::to_vec(&v).unwrap_or_default() } Err(_) => base.to_vec() }
+    } else {
+        match ciborium::de::from_reader::<ciborium::value::Value, _>(base) { Ok(mut v) => { let mut t0 = target; if !resize_cbor(&mut v, &mut t0, newlen) { target = 0; let _ = resize_cbor(&mut v, &mut target, newlen); } ser(&v) } Err(_) => base.to_vec() }
+    }
+}
+
 fn mutate(ctx: &mut Ctx, valid: &[Vec<u8>], n: usize, text: bool) -> Vec<Vec<u8>> {
     let huge: [&[u8]; 8] = [&[0x9b, 0, 0, 1, 0, 0, 0, 0, 0], &[0x5b, 0, 0, 1, 0, 0, 0, 0, 0], &[0x7b, 0, 0, 1, 0, 0, 0, 0, 0], &[0xbb, 0, 0, 1, 0, 0, 0, 0, 0],
         &[0x9a, 0x40, 0, 0, 0], &[0x5a, 0x7f, 0xff, 0xff, 0xff], &[0xba, 0x40, 0, 0, 0], &[0x9b, 0xff, 0xff, 0xff, 0xff, 0xff, 0xff, 0xff, 0xff]];
     let mut out: Vec<Vec<u8>> = valid.to_vec();
     for _ in 0..n {
         let base = ctx.rng.pick(valid).clone();
-        let m = match ctx.rng.below(9) {
+        let m = match ctx.rng.below(11) {
             0 => { let k = ctx.rng.below(base.len() as u64 + 1) as usize; base[..k].to_vec() }                                  // truncation
             1 => { let mut b = base.clone(); b.extend(ctx.rng.bytes_in(1, 40)); b }                                                // extension
             2 => { let mut b = base.clone(); if !b.is_empty() { for _ in 0..ctx.rng.range(1, 4) { let i = ctx.rng.below(b.len() as u64) as usize; b[i] ^= 1 << ctx.rng.below(8); } } b }   // bit flips
@@ -148,6 +180,7 @@ fn mutate(ctx: &mut Ctx, valid: &[Vec<u8>], n: usize, text: bool) -> Vec<Vec<u8>
                         let mut o: String = chars[..i].iter().collect(); o.push(*ctx.rng.pick(&['\u{e9}', '\u{20ac}', '\u{1f600}', '\u{7f}', '\u{0}'])); o.extend(chars[(i + ctx.rng.below(2) as usize).min(chars.len())..].iter()); o.into_bytes() }
                         Err(_) => ctx.rng.bytes_in(0, 80) }
                 } else { ctx.rng.bytes_in(0, 80) },                                                                              // arbitrary bytes
+            8 | 9 => resized(ctx, &base, text),
             _ => { let mut b = base.clone(); if b.len() > 2 { let i = ctx.rng.below(b.len() as u64 - 1) as usize; b.swap(i, i + 1); b.remove(i); } b }
         };
         out.push(m);
@@ -177,6 +210,15 @@ pub fn gen(ctx: &mut Ctx) {
         ("cbor.getAssertionRequest", "getAssertionRequest"), ("cbor.getAssertionResponse", "getAssertionResponse"), ("cbor.getInfoResponse", "getInfoResponse")] {
         let valid: Vec<Vec<u8>> = (0..8).map(|_| crate::c13::message_pub(ctx, schema)).collect();
         let mut inputs = mutate(ctx, &valid, n, false);
+        // every string member of two valid messages at other lengths (fixed-size fields behind them: AAGUID, hashes)
+        for base in valid.iter().take(2) {
+            if let Ok(v) = ciborium::de::from_reader::<ciborium::value::Value, _>(base.as_slice()) {
+                for target in 0..12i64 { for newlen in [0usize, 1, 15, 17, 33] {
+                    let (mut w, mut t) = (v.clone(), target);
+                    if resize_cbor(&mut w, &mut t, newlen) { inputs.push(ser(&w)); }
+                } }
+            }
+        }
         // known killers: a declared 2^40-element array in a binary member; a truncated list of 2^30 declared elements
         inputs.push(vec![0xa1, 0x01, 0x9b, 0, 0, 1, 0, 0, 0, 0, 0]);
         inputs.push(vec![0xa1, 0x02, 0x9b, 0, 0, 1, 0, 0, 0, 0, 0]);
